@@ -266,6 +266,9 @@ func code39DecodeExtended(encoded []byte) (string, error) {
 	for i := 0; i < length; i++ {
 		c := encoded[i]
 		if c == '+' || c == '$' || c == '%' || c == '/' {
+			if i+1 >= length {
+				return string(decoded), gozxing.NewFormatException("encoded ends with escape character 0x%02x", c)
+			}
 			next := encoded[i+1]
 			decodedChar := byte(0)
 			switch c {
